@@ -291,7 +291,7 @@ class CallStack(deque):
     def rollback(self):
         node = deque.pop(self)
         self.idxstack.pop()
-        self.executor.rolledback.append(node)
+        self.executor.rolledback.append((node, sys.exc_info()[1]))
         self.counter -= 1
         cells = node[OBJ]
 
@@ -376,6 +376,13 @@ class ErrorStack(deque):
         tbexc = traceback.TracebackException.from_exception(execinfo[1])
         tb = execinfo[2]
         self.on_eval_flag = False
+
+        # Nodes rolled back by exceptions that formulas caught themselves
+        # are stale. Keep only those unwound by the escaping exception.
+        nodes = deque(
+            node for node, exc in rolledback if exc is execinfo[1])
+        rolledback.clear()
+        rolledback = nodes
 
         mxdir = os.path.dirname(modelx.__file__)
 
